@@ -177,23 +177,12 @@ fn enum_type<'a>(input: &mut &'a [u8]) -> ModalResult<Type<'a>, InputError<&'a [
 }
 
 /// Parse an inline type (struct or enum).
-/// Determines if it's a struct by looking for ':' character.
+///
+/// A struct is tried first (its fields have a colon after the name; `()` is the empty object), then
+/// an enum. Deciding by looking ahead for a colon before the first `)` would be confused by comments
+/// that contain either character.
 fn inline_type<'a>(input: &mut &'a [u8]) -> ModalResult<Type<'a>, InputError<&'a [u8]>> {
-    if !input.starts_with(b"(") {
-        return Err(ErrMode::Backtrack(ParserError::from_input(input)));
-    }
-    // Look ahead to see if this contains a colon (indicating struct)
-    if let Some(pos) = input.iter().position(|&b| b == b')') {
-        let content = &input[1..pos]; // Skip opening paren
-        // `()` is the empty object (an enum needs at least one variant).
-        if content.contains(&b':') || content.iter().all(|b| b.is_ascii_whitespace()) {
-            struct_type(input)
-        } else {
-            enum_type(input)
-        }
-    } else {
-        Err(ErrMode::Backtrack(ParserError::from_input(input)))
-    }
+    alt((struct_type, enum_type)).parse_next(input)
 }
 
 /// Parse an element type (primitive, custom, or inline).
